@@ -507,13 +507,15 @@ xds_decoder(vbi_decoder *vbi, int _class, int type,
 				sum &= ((1UL << 31) - 1);
 				sum |= 1UL << 30;
 
-				if (n->nuid != 0)
-					vbi_chsw_reset(vbi, sum);
+				if (sum != n->nuid) {
+					if (n->nuid != 0)
+						vbi_chsw_reset(vbi, sum);
 
-				n->nuid = sum;
+					n->nuid = sum;
 
-				vbi->network.type = VBI_EVENT_NETWORK;
-				caption_send_event(vbi, &vbi->network);
+					vbi->network.type = VBI_EVENT_NETWORK;
+					caption_send_event(vbi, &vbi->network);
+				}
 
 				vbi->network.type = VBI_EVENT_NETWORK_ID;
 				caption_send_event(vbi, &vbi->network);
